@@ -239,6 +239,12 @@ def report(prop: str, tier: str, results: List[Dict[str, Any]], wall: float, ver
                 elif verdict == "sat":
                     o["status"], o["backend"] = "refuted", who
                     o["model"] = {"note": f"counter-model found by {who} (not extracted)"}
+            # a unit shared by several properties may reserve its functional postconditions for some of them (the
+            # crash obligations of the same run count for all): skip the ones that do not belong to this property
+            only_for = getattr(_u, "ensures_only_for", None)
+            if only_for and prop not in only_for and o["kind"] in ("postcondition", "loop-body", "loop-inv-preserved",
+                                                                    "loop-inv-init") and ":postcondition:" in o["key"]:
+                continue
             if o["twin"]:
                 twins.setdefault(o["key"], []).append(o["status"])
                 continue
